@@ -4,7 +4,7 @@
 (* the specification.  A trace is one object (its residue sequence) and    *)
 (* the queries made on it with their replies.                              *)
 (***************************************************************************)
-EXTENDS TraceBase, Patterning
+EXTENDS TraceBase, Patterning, Composition
 VARIABLES t, l, verdict
 vars == <<t, l, verdict>>
 
@@ -48,13 +48,19 @@ Judge(seq, e) ==
                             THEN (IF RClose(r, SCD(x)) THEN OK ELSE "scd-value") ELSE "machinery:sqrt-table"
        [] e.q = "omega"  -> KappaJudge(r, OmegaPattern(seq))
        [] e.q = "kappax" -> KappaJudge(r, KappaXPattern(seq, SetOf(e.g1), SetOf(e.g2)))
+       [] e.q = "omegaseq" -> IF e.rs = OmegaString(seq) THEN OK ELSE "omega-sequence"
+       [] e.q = "param"  -> IF e.name \notin ScalarParams THEN "machinery:unknown-param"
+                            ELSE IF RClose(r, Param(e.name, seq)) THEN OK ELSE "param-" \o e.name
+       [] e.q = "aafrac" -> IF RClose(r, AAFraction(seq, e.aa)) THEN OK ELSE "amino-acid-fraction"
+       [] e.q = "region" -> LET pp == Count(seq, Positive)  nn == Count(seq, Negative) IN
+                            IF REq(r, RFromInt(RegionDoc(pp, nn, Len(seq)))) THEN OK ELSE "region"
        [] OTHER -> "machinery:unknown-query"
 
 Tr == Traces[t]
 Init == t \in 1..Len(Traces) /\ l = 0 /\ verdict = <<"run">>
 Step == /\ verdict = <<"run">> /\ l < Len(Tr.ev)
         /\ LET e == Tr.ev[l+1]
-               j == IF e.r.s \in {-1, 0, 1} THEN Judge(Tr.seq, e) ELSE "reply-not-a-finite-number" IN
+               j == IF "r" \in DOMAIN e /\ e.r.s \notin {-1, 0, 1} THEN "reply-not-a-finite-number" ELSE Judge(Tr.seq, e) IN
            IF j = OK THEN l' = l + 1 /\ verdict' = verdict
            ELSE IF IsKnown(j) THEN l' = l + 1 /\ verdict' = verdict /\ PrintT(<<"KNOWN", ToJson([tid |-> Tr.tid, ev |-> l + 1, id |-> j])>>)
            ELSE l' = l /\ verdict' = <<"reject", l + 1, j>> /\ PrintT(<<"REJ", ToJson([tid |-> Tr.tid, ev |-> l + 1, clause |-> j])>>)
